@@ -38,14 +38,14 @@ func mixSeed(seed int64, stream string, caseNo int) uint64 {
 // ---------- alphabets ----------
 
 var alphaPlain = []string{"a", "b", "c", "xyz", "0", "42", " ", "Hello", "-", "_"}
-var alphaCSV = []string{"\"", "\"\"", ",", "\r", "\n", "\r\n", "\x00", "\xff", "\xc3", "é", "世界", "a", "b,c", " ", "x\"y"}
+var alphaCSV = []string{"\x7f", "\"\xe9", "\t", "\"", "\"\"", ",", "\r", "\n", "\r\n", "\x00", "\xff", "\xc3", "é", "世界", "a", "b,c", " ", "x\"y"}
 var alphaHTML = []string{"<", ">", "&", "\"", "'", "+", "&amp;", "&lt;", "&#34;", "&#x7c;", "<script>", "</td>", "<b>", "\n", "a", "b c", "é", "`", "=", "/", "<!--", "-->", "]]>", "{{.}}", "\x00"}
-var alphaMD = []string{"|", "\\", "\\|", "\n", "<", ">", "&", "\"", "'", "&#x7c;", "&amp;", "a", "b", " ", "  ", "世", "*x*", "`", "---", ":", "é", "x\\"}
+var alphaMD = []string{"\xff", "caf\xe9", "\xe4\xb8", "\x7f", "\t", "|", "\\", "\\|", "\n", "<", ">", "&", "\"", "'", "&#x7c;", "&amp;", "a", "b", " ", "  ", "世", "*x*", "`", "---", ":", "é", "x\\"}
 
 // multi-line mixes of narrow and wide runs (a later line with fewer runes but more cells, etc.)
 var alphaTextLines = []string{"abc\n世界", "世界\nabcd", "é\n世", "ab\nｗｗ", "a\nbb\nccc", "世\n\nxy", "wide 世界 mix\nshort", "x\n世界界"}
 
-var alphaText = []string{"a", "bc", " ", "世", "界", "é", "é", "​", "👨‍👩‍👧", "🇯🇵", "\n", "\n\n", "x", "ｗ", "\t", "0", "Ωmega", "­"}
+var alphaText = []string{"\x7f", "ab\x7f", "\x1b[1m", "a", "bc", " ", "世", "界", "é", "é", "​", "👨‍👩‍👧", "🇯🇵", "\n", "\n\n", "x", "ｗ", "\t", "0", "Ωmega", "­"}
 
 // D20 triggers (go-runewidth clusters a leading mark with the padding space); only in the dedicated stream
 var alphaD20 = []string{"ः", "\U0001F3FB", "ൎ", "؀"}
@@ -71,6 +71,10 @@ func (r *rng) lineText() string {
 }
 
 func (r *rng) text(alpha []string, maxParts int) string {
+	if r.chance(1, 40) {
+		// a long run: paddings of 64 and more in the same column as short texts
+		return strings.Repeat(r.pick([]string{"x", "ab", "-"}), 33+r.n(40))
+	}
 	if len(alpha) > 0 && &alpha[0] == &alphaText[0] && r.chance(1, 4) {
 		if r.chance(1, 2) {
 			return r.pick(alphaTextLines)
@@ -135,6 +139,9 @@ func (g *Gen) anyItem(alpha []string, parts int) string {
 	case k == 12:
 		return g.item(fmt.Sprintf("rune:%d", []int{65, 0x4e16, 0xe9, 0x1F600, 10, 34, 60, 124, 0, -1, 0xD800, 0x110000}[r.n(12)]))
 	case k == 13:
+		if r.chance(1, 4) {
+			return g.item("zerocell")
+		}
 		return g.item(fmt.Sprintf("sample:%d", r.n(nSamples)))
 	case k < 18:
 		mask := r.n(8) // text-form interfaces only; size overrides are for the size streams
